@@ -1,4 +1,5 @@
 import Martian.Model.Proxy
+import Martian.Drv.GoLib
 /-! Shared driver of the exchange machine (C01, C02, C03, C05 use the same op language). -/
 namespace Martian.Drv.Proxy
 open Martian Martian.Proxy
@@ -95,6 +96,9 @@ def step (s : St) (toks : List String) : St × String :=
     | none => ({ tlsListener := tl }, "ok")
   | ["end"] => if s.bad then (init, "bad-op") else (init, finish s)
   | _ =>
+    match GoLib.step toks with
+    | some o => (s, o)
+    | none =>
     match parseItem toks with
     | some it => ({ s with items := it :: s.items }, "queued")
     | none => ({ s with bad := true }, "bad-op")
